@@ -256,7 +256,7 @@ def R(rec, props=('C08', 'C09', 'C01', 'C03'), inline_reset=True, **kw):
                       setup='  struct %s obj; struct CdnsDecoder dec;\n  rd_init();\n' % rec, args=['&obj', '&dec'], props=list(props), timeout=1800, weight=3 if rec in LISTY else 1,
                       arrays_uf=False, lifted_loops=None if rec in LISTY else lifted_loops, lifted_stub=instance_stubs if rec in LISTY else None, auto_inline=[r'[A-Za-z]+__ctor__\w+', r'[A-Za-z]+__default', r'[A-Za-z]+__reset'],
                       extra_c='struct seq_u8 g_OpCodesDefault; struct seq_u16 g_RrTypesDefault;\n' if rec in ('StorageParameters', 'BlockParameters', 'FilePreamble') else '',
-                      split=False, tier='thorough' if rec == 'QueryResponse' else 'quick',
+                      split=False, tier='quick',
                       post='  if (g_exc != 0) { CANARY("decoder exception reachable"); }',
                       note='map with any number of entries, any keys (unknown, negative, repeated), definite or indefinite, any member order; '
                            'every decoder call may raise a format / end-of-input error', **kw))
